@@ -52,6 +52,10 @@ def write_book(path, book, target):
                     worksheet.write_number(y, x, cell["serial"] + cell["sec"] / 86400.0, datetime_format)
                 elif kind == "time":
                     worksheet.write_number(y, x, cell["sec"] / 86400.0, time_format)
+                elif kind == "datetimems":
+                    worksheet.write_number(y, x, cell["serial"] + (cell["sec"] + cell["ms"] / 1000.0) / 86400.0, datetime_format)
+                elif kind == "timems":
+                    worksheet.write_number(y, x, (cell["sec"] + cell["ms"] / 1000.0) / 86400.0, time_format)
                 else:
                     raise core.MachineryError("cell kind %r" % kind)
     workbook.close()
